@@ -32,12 +32,12 @@ theorem has_append_single (acc : Acc) (i j : Nat) (x : Inst) :
     Acc.has (acc ++ [(i, x)]) j = (acc.has j || i == j) := by
   simp [Acc.has]
 
-theorem readSlots_write (tbl : List FieldC) (xs : List Inst) (hn : NameNodup tbl) :
+theorem readSlots_write (r : Bool) (tbl : List FieldC) (xs : List Inst) (hn : NameNodup tbl) :
     ∀ (g : List FieldC) (acc : Acc),
       (∀ f ∈ g, f ∈ tbl) →
-      (∀ f ∈ g, f.c.dec (f.c.enc (fieldVal xs f)) = some (fieldVal xs f)) →
+      (∀ f ∈ g, f.c.dec r (f.c.enc (fieldVal xs f)) = some (fieldVal xs f)) →
       IdxNodup g → (∀ f ∈ g, acc.has f.idx = false) →
-      readSlots tbl acc (writeSlots (withVals xs g)) = some (acc ++ pairsOf xs (kept xs g)) := by
+      readSlots r tbl acc (writeSlots (withVals xs g)) = some (acc ++ pairsOf xs (kept xs g)) := by
   intro g
   induction g with
   | nil => intro acc _ _ _ _; simp [withVals, writeSlots, readSlots, pairsOf, kept]
@@ -45,11 +45,11 @@ theorem readSlots_write (tbl : List FieldC) (xs : List Inst) (hn : NameNodup tbl
     intro acc hmem hdec hidx hacc
     have hf : f ∈ tbl := hmem f (List.mem_cons_self ..)
     have hmem' : ∀ f' ∈ g, f' ∈ tbl := fun f' h => hmem f' (List.mem_cons_of_mem _ h)
-    have hdec' : ∀ f' ∈ g, f'.c.dec (f'.c.enc (fieldVal xs f')) = some (fieldVal xs f') :=
+    have hdec' : ∀ f' ∈ g, f'.c.dec r (f'.c.enc (fieldVal xs f')) = some (fieldVal xs f') :=
       fun f' h => hdec f' (List.mem_cons_of_mem _ h)
     have hidx' : IdxNodup g := (List.pairwise_cons.mp hidx).2
     by_cases ho : f.c.omits (fieldVal xs f) = true
-    · have : readSlots tbl acc (writeSlots (withVals xs (f :: g))) = readSlots tbl acc (writeSlots (withVals xs g)) := by
+    · have : readSlots r tbl acc (writeSlots (withVals xs (f :: g))) = readSlots r tbl acc (writeSlots (withVals xs g)) := by
         simp [withVals, writeSlots, ho]
       rw [this, ih acc hmem' hdec' hidx' (fun f' h => hacc f' (List.mem_cons_of_mem _ h))]
       simp [kept, ho]
@@ -74,13 +74,13 @@ theorem readSlots_write (tbl : List FieldC) (xs : List Inst) (hn : NameNodup tbl
 def HeadNotIn (tbl : List FieldC) (more : List Attr) : Prop :=
   ∀ n v r, more = (n, v) :: r → findField tbl n = none
 
-theorem readAttrs_write (tbl : List FieldC) (xs : List Inst) (hn : NameNodup tbl) (more : List Attr)
+theorem readAttrs_write (r : Bool) (tbl : List FieldC) (xs : List Inst) (hn : NameNodup tbl) (more : List Attr)
     (hmore : HeadNotIn tbl more) :
     ∀ (g : List FieldC) (acc : Acc),
       (∀ f ∈ g, f ∈ tbl) →
-      (∀ f ∈ g, f.c.decAttr (f.c.enc (fieldVal xs f)) = some (fieldVal xs f)) →
+      (∀ f ∈ g, f.c.decAttr r (f.c.enc (fieldVal xs f)) = some (fieldVal xs f)) →
       IdxNodup g → (∀ f ∈ g, acc.has f.idx = false) →
-      readAttrs tbl acc (writeAttrs (withVals xs g) ++ more) = some (acc ++ pairsOf xs g, more) := by
+      readAttrs r tbl acc (writeAttrs (withVals xs g) ++ more) = some (acc ++ pairsOf xs g, more) := by
   intro g
   induction g with
   | nil =>
@@ -412,12 +412,12 @@ theorem delegateBody_eq (attrs : List Attr) (b : Val) :
 
 /-- What the struct layout needs from field `f` holding its value in the instance `xs`
 (`tbl` = the attribute fields of the struct). -/
-structure FieldGood (tbl : List FieldC) (xs : List Inst) (f : FieldC) : Prop where
-  dec_enc : f.kind ≠ .skip → f.c.dec (f.c.enc (fieldVal xs f)) = some (fieldVal xs f)
-  attr : f.kind = .attr ∨ f.kind = .headerBody → f.c.decAttr (f.c.enc (fieldVal xs f)) = some (fieldVal xs f)
-  flat : f.kind = .headerBody → ∀ rest, f.c.dec (.record [] ((none, f.c.enc (fieldVal xs f)) :: rest)) = none
+structure FieldGood (r : Bool) (tbl : List FieldC) (xs : List Inst) (f : FieldC) : Prop where
+  dec_enc : f.kind ≠ .skip → f.c.dec r (f.c.enc (fieldVal xs f)) = some (fieldVal xs f)
+  attr : f.kind = .attr ∨ f.kind = .headerBody → f.c.decAttr r (f.c.enc (fieldVal xs f)) = some (fieldVal xs f)
+  flat : f.kind = .headerBody → ∀ rest, f.c.dec r (.record [] ((none, f.c.enc (fieldVal xs f)) :: rest)) = none
   body : f.kind = .body →
-    f.c.decBody (bodySplit (f.c.enc (fieldVal xs f))).1 (bodySplit (f.c.enc (fieldVal xs f))).2 = some (fieldVal xs f)
+    f.c.decBody r (bodySplit (f.c.enc (fieldVal xs f))).1 (bodySplit (f.c.enc (fieldVal xs f))).2 = some (fieldVal xs f)
     ∧ HeadNotIn tbl (bodySplit (f.c.enc (fieldVal xs f))).1
   omitted : f.kind ≠ .skip → f.c.omits (fieldVal xs f) = true → f.c.absent = some (fieldVal xs f)
   skip : f.kind = .skip → f.c.dflt = some (fieldVal xs f)
@@ -426,10 +426,10 @@ structure FieldGood (tbl : List FieldC) (xs : List Inst) (f : FieldC) : Prop whe
 def headerFields (fs : List FieldC) (xs : List Inst) : List FieldC :=
   (segHb fs).toList ++ kept xs (segHs fs)
 
-theorem readHeader_write (fs : List FieldC) (xs : List Inst) (hidx : IdxNodup fs)
-    (hn : NameNodup (segHs fs)) (hg : ∀ f ∈ fs, FieldGood (segAs fs) xs f) :
-    readHeader fs (headerVal fs xs) = some (pairsOf xs (headerFields fs xs)) := by
-  have hsdec : ∀ f ∈ segHs fs, f.c.dec (f.c.enc (fieldVal xs f)) = some (fieldVal xs f) := by
+theorem readHeader_write (r : Bool) (fs : List FieldC) (xs : List Inst) (hidx : IdxNodup fs)
+    (hn : NameNodup (segHs fs)) (hg : ∀ f ∈ fs, FieldGood r (segAs fs) xs f) :
+    readHeader r fs (headerVal fs xs) = some (pairsOf xs (headerFields fs xs)) := by
+  have hsdec : ∀ f ∈ segHs fs, f.c.dec r (f.c.enc (fieldVal xs f)) = some (fieldVal xs f) := by
     intro f hf
     have := mem_segHs hf
     apply (hg f this.1).dec_enc
@@ -442,7 +442,7 @@ theorem readHeader_write (fs : List FieldC) (xs : List Inst) (hidx : IdxNodup fs
     | nil => simp [Val.isExtant, pairsOf, kept]
     | cons a l =>
       simp only [headerFlat, headerNested, Option.toList_none, List.nil_append]
-      have := readSlots_write (segHs fs) xs hn (segHs fs) [] (fun f h => h) hsdec hsidx (fun f _ => by simp [Acc.has])
+      have := readSlots_write r (segHs fs) xs hn (segHs fs) [] (fun f h => h) hsdec hsidx (fun f _ => by simp [Acc.has])
       rw [hhs] at this
       simpa using this
   | some f =>
@@ -461,7 +461,7 @@ theorem readHeader_write (fs : List FieldC) (xs : List Inst) (hidx : IdxNodup fs
           rcases hm.2 with h | h <;> rw [h] at hf <;> cases hf.2
         have := idx_inj hidx hf.1 hm.1 this
         simp [Acc.has, this]
-      have := readSlots_write (segHs fs) xs hn (segHs fs) [(f.idx, fieldVal xs f)] (fun f h => h) hsdec hsidx hacc
+      have := readSlots_write r (segHs fs) xs hn (segHs fs) [(f.idx, fieldVal xs f)] (fun f h => h) hsdec hsidx hacc
       rw [hhs] at this
       simpa [pairsOf] using this
 
@@ -487,10 +487,10 @@ theorem mem_headerFields {fs : List FieldC} {xs : List Inst} {f : FieldC} (h : f
   · have := mem_segHs (List.mem_filter.mp h).1
     exact ⟨this.1, Or.inr this.2⟩
 
-theorem readOrdinal_write (xs : List Inst) :
+theorem readOrdinal_write (r : Bool) (xs : List Inst) :
     ∀ (g : List FieldC) (acc : Acc),
-      (∀ f ∈ g, f.c.dec (f.c.enc (fieldVal xs f)) = some (fieldVal xs f)) →
-      readOrdinal g acc (writeValues (withVals xs g)) = some (acc ++ pairsOf xs g) := by
+      (∀ f ∈ g, f.c.dec r (f.c.enc (fieldVal xs f)) = some (fieldVal xs f)) →
+      readOrdinal r g acc (writeValues (withVals xs g)) = some (acc ++ pairsOf xs g) := by
   intro g
   induction g with
   | nil => intro acc _; simp [withVals, writeValues, readOrdinal, pairsOf]
@@ -525,8 +525,8 @@ theorem body_shape {fs : List FieldC} (hwf : structWF fs = true) :
   · right; simpa using hl
 
 /-- every field that is not skipped has been read, or was omitted (and then `on_absent` restores it) -/
-theorem coverage (fs : List FieldC) (xs : List Inst) (hwf : structWF fs = true)
-    (hg : ∀ f ∈ fs, FieldGood (segAs fs) xs f) (f : FieldC) (hf : f ∈ fs) (hk : f.kind ≠ .skip) :
+theorem coverage (r : Bool) (fs : List FieldC) (xs : List Inst) (hwf : structWF fs = true)
+    (hg : ∀ f ∈ fs, FieldGood r (segAs fs) xs f) (f : FieldC) (hf : f ∈ fs) (hk : f.kind ≠ .skip) :
     (pairsOf xs (readFields fs xs)).has f.idx = true ∨ f.c.absent = some (fieldVal xs f) := by
   simp only [structWF, Bool.and_eq_true, decide_eq_true_eq] at hwf
   obtain ⟨⟨⟨⟨hb1, hhb1⟩, _⟩, _⟩, _⟩ := hwf
@@ -570,23 +570,23 @@ theorem coverage (fs : List FieldC) (xs : List Inst) (hwf : structWF fs = true)
         · have hl' : bodyLabelled fs = false := by simpa using hl
           simp [hnone, hl', hmem]
 
-theorem structDec_enc (tag : String) (fs : List FieldC) (xs : List Inst)
+theorem structDec_enc (r : Bool) (tag : String) (fs : List FieldC) (xs : List Inst)
     (hidx : IdxNodup fs) (hwf : structWF fs = true)
-    (hg : ∀ f ∈ fs, FieldGood (segAs fs) xs f) :
-    structDec tag fs (structEnc tag fs xs) = some (.struct (fs.map (fieldVal xs))) := by
+    (hg : ∀ f ∈ fs, FieldGood r (segAs fs) xs f) :
+    structDec r tag fs (structEnc tag fs xs) = some (.struct (fs.map (fieldVal xs))) := by
   have hwf0 := hwf
   have hshape := body_shape hwf
   simp only [structWF, Bool.and_eq_true, decide_eq_true_eq] at hwf
   obtain ⟨⟨⟨⟨hb1, hhb1⟩, hnhs⟩, hnas⟩, _⟩ := hwf
   have hnhs := nameNodup_of_distinct hnhs
   have hnas := nameNodup_of_distinct hnas
-  have hhdr := readHeader_write fs xs hidx hnhs hg
+  have hhdr := readHeader_write r fs xs hidx hnhs hg
   -- the attribute fields
   have hattr : ∀ more, HeadNotIn (segAs fs) more →
-      readAttrs (segAs fs) (pairsOf xs (headerFields fs xs)) (writeAttrs (withVals xs (segAs fs)) ++ more)
+      readAttrs r (segAs fs) (pairsOf xs (headerFields fs xs)) (writeAttrs (withVals xs (segAs fs)) ++ more)
         = some (pairsOf xs (headerFields fs xs) ++ pairsOf xs (segAs fs), more) := by
     intro more hmore
-    apply readAttrs_write (segAs fs) xs hnas more hmore (segAs fs) _ (fun f h => h)
+    apply readAttrs_write r (segAs fs) xs hnas more hmore (segAs fs) _ (fun f h => h)
     · intro f hf
       have := mem_segAs.mp hf
       exact (hg f this.1).attr (Or.inl this.2)
@@ -602,7 +602,7 @@ theorem structDec_enc (tag : String) (fs : List FieldC) (xs : List Inst)
   have hfinal : assemble (pairsOf xs (readFields fs xs)) fs = some (fs.map (fieldVal xs)) := by
     apply assemble_ok xs _ (consistent_pairsOf xs _) fs
     · intro f hf hk; exact (hg f hf).skip hk
-    · intro f hf hk; exact coverage fs xs hwf0 hg f hf hk
+    · intro f hf hk; exact coverage r fs xs hwf0 hg f hf hk
   unfold structEnc
   cases hbody : segBody fs with
   | some b =>
@@ -625,7 +625,7 @@ theorem structDec_enc (tag : String) (fs : List FieldC) (xs : List Inst)
       | true => obtain ⟨b, hb⟩ := hasBody_iff_segBody.mp h; rw [hbody] at hb; cases hb
     have hattr0 := hattr [] (by intro n v r h; cases h)
     rw [List.append_nil] at hattr0
-    have hsdec : ∀ f ∈ segSlots fs, f.c.dec (f.c.enc (fieldVal xs f)) = some (fieldVal xs f) := by
+    have hsdec : ∀ f ∈ segSlots fs, f.c.dec r (f.c.enc (fieldVal xs f)) = some (fieldVal xs f) := by
       intro f hf
       have hm := mem_segSlots hf
       apply (hg f hm.1).dec_enc
@@ -660,7 +660,7 @@ theorem structDec_enc (tag : String) (fs : List FieldC) (xs : List Inst)
     unfold structDec
     simp only [beq_self_eq_true, ↓reduceIte]
     rcases hshape with ⟨hl, hnsl⟩ | hl
-    · have hslots := readSlots_write (segSlots fs) xs hnsl (segSlots fs) _ (fun f h => h) hsdec
+    · have hslots := readSlots_write r (segSlots fs) xs hnsl (segSlots fs) _ (fun f h => h) hsdec
         (idxNodup_segSlots hidx) hacc
       have htarget : pairsOf xs (headerFields fs xs) ++ pairsOf xs (segAs fs) ++ pairsOf xs (kept xs (segSlots fs))
           = pairsOf xs (readFields fs xs) := by
@@ -670,7 +670,7 @@ theorem structDec_enc (tag : String) (fs : List FieldC) (xs : List Inst)
       unfold structDecAfterTag
       simp only [hhdr, hattr0, hbody, hl, ↓reduceIte, hslots, hfinal]
       simp
-    · have hslots := readOrdinal_write xs (segSlots fs)
+    · have hslots := readOrdinal_write r xs (segSlots fs)
         (pairsOf xs (headerFields fs xs) ++ pairsOf xs (segAs fs)) hsdec
       have htarget : pairsOf xs (headerFields fs xs) ++ pairsOf xs (segAs fs) ++ pairsOf xs (segSlots fs)
           = pairsOf xs (readFields fs xs) := by
